@@ -462,6 +462,7 @@ def run_pool(tape, out, fs, root, elfi, estore):
     models = {nm: [] for nm in names}
     nops = tape.int('n_ops', 3, 14)
     info = {'kills': 0}
+    zombies = []
 
     def cur():
         return [models[nm] for nm in names]
@@ -474,7 +475,7 @@ def run_pool(tape, out, fs, root, elfi, estore):
             op = 'flush'
         else:
             op = tape.choice('op', ['add_batch', 'add_batch', 'flush', 'remove_batch', 'clear',
-                                    'save', 'close_open', 'add_batch', 'readd'])
+                                    'save', 'close_open', 'add_batch', 'readd', 'save_open'])
         if op == 'add_batch':
             batch = {nm: gens[nm].rows(bs) for nm in names}
             for nm in names:
@@ -517,6 +518,24 @@ def run_pool(tape, out, fs, root, elfi, estore):
             h.end(flushed=True)
             for f in files:
                 check_standard_npy(out, f.path, f, 'after pool.save (op %d)' % h.j)
+        elif op == 'save_open':
+            # pickling + unpickling at pool level: save(), open a second handle while the
+            # first one is still alive, continue with the second, drop the first later
+            h.begin('pickle', cur())
+            pool.save()
+            h.end(flushed=True)
+            for f in files:
+                check_standard_npy(out, f.path, f, 'after pool.save (op %d)' % h.j)
+            old_pool = pool
+            pool = estore.ArrayPool.open('p', prefix=root)
+            zombies.append(old_pool)
+            if tape.chance('drop_old_pool', 1, 2):
+                zombies.clear()
+                gc.collect()
+            out.probes['pool_save_open'] += 1
+            if sorted(pool.stores) != sorted(names):
+                out.violate('report', 'pool-stores', got=sorted(pool.stores))
+                return info
         elif op == 'close_open':
             h.begin('reopen', cur())
             pool.close()
@@ -552,6 +571,7 @@ def run_pool(tape, out, fs, root, elfi, estore):
         check_standard_npy(out, f.path, f, 'final close')
     h.check_snapshots()
     pool = None
+    zombies.clear()
     gc.collect()
     info['h'] = h
     return info
